@@ -224,6 +224,33 @@ class Str(V):
 
 
 @dataclass(frozen=True)
+class BSeg:
+    """A non-empty run of bytes without a newline, identified by name; `lo`/`hi`
+    cut a constant number of bytes off its ends (sub-segments)."""
+    name: str
+    lo: int = 0
+    hi: int = 0
+
+    def __repr__(self):
+        return self.name + (f"[{self.lo or ''}:{-self.hi if self.hi else ''}]" if (self.lo or self.hi) else "")
+
+
+@dataclass(frozen=True)
+class BNL:
+    def __repr__(self):
+        return "\\n"
+
+
+@dataclass(frozen=True)
+class BV(V):
+    """Symbolic byte string: a sequence of segments and newlines."""
+    parts: tuple
+
+    def __repr__(self):
+        return "b<" + " ".join(map(repr, self.parts)) + ">"
+
+
+@dataclass(frozen=True)
 class MatProd(V):
     """Matrix product a @ b @ ... (flattened; association does not matter)."""
     factors: tuple
